@@ -152,7 +152,7 @@ void h_sync(void)
 	/* hang-up downgrade: only without a session, one step, reconnect at once */
 	if (g_sock.version < g_pre.version && g_pre.has_received_pdus)
 		CHECK(r == -1 && g_sock.state == RTR_FAST_RECONNECT &&
-			      (g_gh.errpdu_calls > 0 || (g_pre.request_session_id && g_sock.version + 1 == g_pre.version && g_gh.store_calls == 0)),
+			      (g_gh.errpdu_calls > 0 || g_gh.store_calls == 1 || (g_pre.request_session_id && g_sock.version + 1 == g_pre.version && g_gh.store_calls == 0)),
 		      "C13 after the first PDU the version is lowered only by an Unsupported-Version report or when the cache hangs up before any session exists; reconnect at once");
 	if (g_sock.state == RTR_FAST_RECONNECT && g_pre.state != RTR_FAST_RECONNECT && g_gh.store_calls == 0)
 		CHECK(g_sock.version < g_pre.version && r == -1, "C13 fast reconnect only together with a downgrade");
